@@ -3,6 +3,7 @@
 # Applies each behaviour-preserving patch of the set to a scratch worktree of /repo (/tmp/rf-eval, created on demand, removed
 # with tools/eval_refactor.sh --clean), runs the checks against it (LDAP3_REPO), prints any alarm (= a false alarm of the checker).
 if [ "$1" = "--clean" ]; then git -C /repo worktree remove --force ${RF_WT:-/tmp/rf-eval} 2>/dev/null; git -C /repo worktree prune; exit 0; fi
+VROOT=$(cd "$(dirname "$0")/.." && pwd)
 set=$1; shift
 which=${1:-all}; shift
 checks="$@"
@@ -12,13 +13,13 @@ WT=${RF_WT:-/tmp/rf-eval}
 cd $WT || exit 9
 git checkout -q --detach $(git -C /repo rev-parse HEAD) 2>/dev/null
 git checkout -q -- .
-for p in /verif/refactors/$set/patch_*.diff; do
+for p in "$VROOT"/refactors/$set/patch_*.diff; do
   k=$(basename $p .diff); k=${k#patch_}
   if [ "$which" != "all" ] && ! echo " $which " | grep -q " $k "; then continue; fi
   git apply "$p" || { echo "== $set/$k: DOES NOT APPLY"; continue; }
   echo "== $set/patch_$k ($(git diff --stat -- src lber/src | tail -1))"
   for c in $checks; do
-    out=$(LDAP3_REPO=$WT /verif/check $c 2>&1)
+    out=$(LDAP3_REPO=$WT "$VROOT/check" $c 2>&1)
     echo "$out" | grep -E 'BUILD-ERROR|Traceback' | head -2
     n=$(echo "$out" | grep -c '^VIOLATION')
     if [ "$n" -gt 0 ]; then echo "   $c: $n alarm(s):"; echo "$out" | grep -B2 '^VIOLATION' | grep -vE '^VIOLATION|^--' | cut -c1-${COLS:-400}; fi
